@@ -223,3 +223,20 @@ func (e *Engine) SetAutoIncIncrement(n int64) {
 	}
 	e.AutoIncIncrement = n
 }
+
+// DropXABranch removes an XA branch whatever its state (harness housekeeping between cases).
+func (e *Engine) DropXABranch(id string) {
+	e.mu.Lock()
+	defer e.mu.Unlock()
+	if b := e.xa[id]; b != nil {
+		owner := &Session{e: e, id: b.conn}
+		owner.releaseLocks(b.tx)
+		delete(e.xa, id)
+		for _, s := range e.sessions {
+			if s.xaID == id {
+				s.xaID = ""
+				s.tx = nil
+			}
+		}
+	}
+}
